@@ -1,10 +1,10 @@
-\* C35 leg A thorough, second configuration (phase 2): 3 local blocks; one block may APPEAR LATE
+\* C35 leg A thorough, second configuration (phase 2): 3 local blocks; one crash anywhere; one block may APPEAR LATE
 \* (backfill / a compacted block becoming eligible); MultiTSDB pruning of the directory and the local TSDB retention
 \* may run at any moment, guarded only by the shipper file
 SPECIFICATION Spec
 CONSTANTS N = 3
-          MaxCrashes = 0
-          Features = {"prune", "late"}
+          MaxCrashes = 1
+          Features = {"crash", "prune", "late"}
           MaxFails = 0
           MtLen = 3
           CaseN = 2
